@@ -184,6 +184,9 @@ func Containers() map[string]interface{} {
 		"me":   map[string]int{},
 		"mnil": map[string]int(nil),
 		"many": map[string]interface{}{"n": nil, "i": 1, "s": "x", "l": []interface{}{1}, "m": map[string]interface{}{"z": 0}},
+		// an interface list whose first elements cannot be compared with a literal (an object, a list) in front of ones that can
+		"mixo": []interface{}{map[string]interface{}{"name": "x"}, "web", []interface{}{1}, "z", 5},
+		"mixn": []interface{}{1, "web", map[string]interface{}{"name": "x"}},
 		// keys that spell the joined form of a longer path: dots.a.b and dots["a.b"] are different selectors
 		"dots": map[string]interface{}{"a.b": 1, "a": map[string]interface{}{"b": 2, "c/d": 3, "c": map[string]interface{}{"d": 4}}, "a/b": 5, "a b": 6, "ab": 7},
 		"mim":  map[int]string{5: "five", -1: "neg"},
@@ -245,7 +248,7 @@ func longList(n, hot int) []int {
 // JSONDoc decodes a document the way callers of go-bexpr typically do.
 func JSONDoc(useNumber bool) interface{} {
 	const doc = `{"name":"web","port":8080,"ratio":0.25,"big":9007199254740993,"neg":-3,"on":true,"none":null,
-	 "tags":["a","b",null,1,2.5,true],"meta":{"env":"prod","n":null,"nested":{"k":[1,{"z":"deep"}]}},"empty":{},"el":[],"s":"/usr/bin"}`
+	 "tags":["a","b",null,1,2.5,true],"meta":{"env":"prod","n":null,"nested":{"k":[1,{"z":"deep"}]}},"empty":{},"el":[],"s":"/usr/bin","mixo":[{"name":"x"},"web",[1],"z",5]}`
 	dec := json.NewDecoder(strings.NewReader(doc))
 	if useNumber {
 		dec.UseNumber()
